@@ -213,8 +213,13 @@ func runC14(rec *vk.Rec, hi int, h string) {
 		payloads = nil
 		mu.Unlock()
 		rep, err := s1.admin.Request("keyban", map[string]interface{}{"secret": s1.b.Master, "target": key, "banned": to})
-		if err != nil || rep.Status != 200 {
-			fail("keyban-refused", fmt.Sprintf("%v %+v", err, rep))
+		if err != nil { // the monitor's own connection failed: not an answer of the broker
+			rec.Inconclusive("keyban request: " + err.Error())
+			violated = true
+			return
+		}
+		if rep.Status != 200 {
+			fail("keyban-refused", fmt.Sprintf("%+v", rep))
 			return
 		}
 		banned = to
